@@ -5,6 +5,11 @@
 (* composed (random, full vocabulary) and the verdict the library gave.    *)
 (* The line is accepted iff Auth!Allowed re-derives that verdict, and, for *)
 (* accepted power-level events, NoEsc holds.                               *)
+(* A line may carry `pre`: before the call the caller read a power-levels  *)
+(* content through a public accessor and edited the value it got           *)
+(* (Auth_gen.tla, action CallerEdit).  That value is the caller's copy: no *)
+(* operator below reads `pre` - the verdict is the scenario's, whatever    *)
+(* the caller did to its copy.                                             *)
 (***************************************************************************)
 EXTENDS Auth, Json, IOUtils, SequencesExt
 
